@@ -39,6 +39,10 @@ open PromVerif.Generated.Wrappers
 inductive ExcClass
   | baseException | exception | valueError | lookupError | keyError
   | keyboardInterrupt | systemExit | generatorExit
+  -- Python 3.11+ exception groups: `isinstance` looks at the group object, never at its leaves
+  | baseExceptionGroup | exceptionGroup
+  -- `class ValueGroup(ExceptionGroup, ValueError)`: a group that IS an instance of a leaf-like class
+  | valueGroup
 deriving DecidableEq, Repr
 
 /-- `__mro__` without `object` -/
@@ -51,6 +55,9 @@ def ExcClass.mro : ExcClass → List ExcClass
   | .keyboardInterrupt => [.keyboardInterrupt, .baseException]
   | .systemExit => [.systemExit, .baseException]
   | .generatorExit => [.generatorExit, .baseException]
+  | .baseExceptionGroup => [.baseExceptionGroup, .baseException]
+  | .exceptionGroup => [.exceptionGroup, .baseExceptionGroup, .exception, .baseException]
+  | .valueGroup => [.valueGroup, .exceptionGroup, .baseExceptionGroup, .valueError, .exception, .baseException]
 
 def isSubclass (c d : ExcClass) : Bool := c.mro.contains d
 
@@ -507,6 +514,8 @@ def classOfName (name : List Char) : Option ExcClass :=
   else if name = "ValueError".toList then some .valueError else if name = "LookupError".toList then some .lookupError
   else if name = "KeyError".toList then some .keyError else if name = "KeyboardInterrupt".toList then some .keyboardInterrupt
   else if name = "SystemExit".toList then some .systemExit else if name = "GeneratorExit".toList then some .generatorExit
+  else if name = "BaseExceptionGroup".toList then some .baseExceptionGroup
+  else if name = "ExceptionGroup".toList then some .exceptionGroup
   else none
 
 /-- `counter.count_exceptions()` without argument -/
